@@ -20,6 +20,8 @@ ASSUMPTIONS = ['a multiplied anchor has exactly one branch and carries no ring m
 NODE_ONLY = {'node_mult', 'node_mult_then_sym', 'node_mult_1', 'node_mult_first', 'node_mult_in_branch',
              'node_mult_annot'}
 
+FUZZ = dict(campaigns=8, runs=2500)
+
 
 def budget(tier):
     if tier == 'thorough':
